@@ -11,7 +11,8 @@
  * The input buffer is a heap object of EXACTLY len bytes: any read outside the text is a pointer_dereference failure.
  *
  * -DNUM_KIND / -DNUM_K select the radix prefix as in num_scan_acc.c; NUM_KIND 9 leaves the whole text symbolic
- * (memory safety only, -DNUM_NOVALUE).
+ * (memory safety only, -DNUM_NOVALUE): entries h_scan_value (scan_uint64), h_memsafe_i64 (janet_scan_int64),
+ * h_memsafe_u64 (janet_scan_uint64).
  */
 #include "prelude.h"
 
@@ -92,7 +93,7 @@ void h_scan_value(void) {
     __CPROVER_assert((unsigned __int128) out == v, "scan_uint64 delivers exactly the value denoted");
     __CPROVER_assert(neg == (buf[0] == '-'), "scan_uint64 reports the sign");
     REACH("scan_uint64 accepts");
-    if (out > 0xFFFFFFFFFFFFull) REACH("scan_uint64 accepts a value above 2^48");
+    if (out > 36 * 36) REACH("scan_uint64 accepts a value of several digits");
   }
 #ifdef NUM_OVF   /* only where NUM_MAXLEN digits of this radix can exceed 2^64-1 */
   if (r == 0 && valid) REACH("scan_uint64 rejects a well formed text whose value exceeds 2^64-1");
@@ -100,4 +101,27 @@ void h_scan_value(void) {
 #else
   if (r == 1) REACH("scan_uint64 accepts");
 #endif
+}
+
+/* memory safety of the public scanners on an arbitrary text of at most NUM_MAXLEN bytes (exact-size heap object) */
+void h_memsafe_i64(void) {
+  int32_t len = nd_i32();
+  __CPROVER_assume(len >= 0 && len <= NUM_MAXLEN);
+  uint8_t *buf = malloc(len);
+  __CPROVER_assume(buf != NULL);
+  int64_t out;
+  int r = janet_scan_int64(buf, len, &out);
+  REACH("janet_scan_int64 returns");
+  if (r == 1) REACH("janet_scan_int64 accepts");
+}
+
+void h_memsafe_u64(void) {
+  int32_t len = nd_i32();
+  __CPROVER_assume(len >= 0 && len <= NUM_MAXLEN);
+  uint8_t *buf = malloc(len);
+  __CPROVER_assume(buf != NULL);
+  uint64_t out;
+  int r = janet_scan_uint64(buf, len, &out);
+  REACH("janet_scan_uint64 returns");
+  if (r == 1) REACH("janet_scan_uint64 accepts");
 }
